@@ -278,6 +278,22 @@ class Bench:
                 return
             net.complete_sock(None if op[1] else OSError(111, "refused"))
             self.emit(f"sockDone {1 if op[1] else 0}")
+        elif k in ("resolvedExc", "sockExc"):
+            # the resolver / the TCP connect fails with something that is NOT a network error (a host name that cannot be
+            # encoded, a port out of range, a bug in a resolver plug-in): judged on the implementation only (tag nomodel)
+            exc = {"unicode": UnicodeError("label too long"), "overflow": OverflowError("port must be 0-65535"),
+                   "type": TypeError("bad argument"), "value": ValueError("bad value"), "key": KeyError("k"),
+                   "runtime": RuntimeError("x")}[op[1]]
+            if k == "resolvedExc":
+                if not net.resolve_futs or net.resolve_futs[0].done():
+                    return
+                net.complete_resolve(exc)
+                self.emit("resolved 0")
+            else:
+                if not net.sock_futs or net.sock_futs[0].done():
+                    return
+                net.complete_sock(exc)
+                self.emit("sockDone 0")
         elif k == "callFinish":
             self.phase_call("finish", conn.finish_connection(login=self.login), "callFinish")
         elif k == "callDisc":
